@@ -74,6 +74,10 @@ func replay(f lib.Flags) int {
 			lib.Fatal(err)
 		}
 		o, err := runLinCase(c)
+		if be, ok := err.(*blockedErr); ok && monitorBlocked(m, c, be) {
+			fmt.Printf("replay %+v\n -> code: %v\n", c, err)
+			break
+		}
 		if err != nil {
 			fmt.Println("replay: cannot run the schedule:", err)
 			return 2
@@ -86,6 +90,16 @@ func replay(f lib.Flags) int {
 		for _, v := range res.Monitors[0].Violations {
 			if mm, ok := v.Input.(map[string]any); ok && mm["pkg"] == in["pkg"] && mm["router"] == in["router"] {
 				m.Violate(v.Signature, v.What, v.Input, v.Expected, v.Observed)
+			}
+		}
+	case "regen":
+		res := lib.NewResult("C12", f)
+		runRegen(f, res)
+		for _, mm := range res.Monitors {
+			for _, v := range mm.Violations {
+				if vi, ok := v.Input.(map[string]any); ok && vi["key"] == in["key"] {
+					m.Violate(v.Signature, v.What, v.Input, v.Expected, v.Observed)
+				}
 			}
 		}
 	case "stress":
@@ -109,6 +123,19 @@ func replay(f lib.Flags) int {
 		} else {
 			monitorReg(m, e, c, a)
 		}
+		fmt.Printf("replay %+v\n -> code: %s\n", c, a)
+	case "reentrant":
+		var c reCase
+		if err := json.Unmarshal(raw, &c); err != nil {
+			lib.Fatal(err)
+		}
+		e, ok := findEntry(c.Pkg, c.Router)
+		if !ok {
+			fmt.Printf("replay: router %s.%s no longer exists\n", c.Pkg, c.Router)
+			return 2
+		}
+		confirmed := false
+		a := checkReCase(m, e, c, &confirmed)
 		fmt.Printf("replay %+v\n -> code: %s\n", c, a)
 	case "conc":
 		var c concCase
